@@ -41,9 +41,15 @@ Fixpoint split_dot (s : text) : option (text * text) :=
                else match split_dot s' with Some (a, b) => Some (c :: a, b) | None => None end
   end.
 
+(* a class: name, module and the qualified names "module.Name" of its MRO (itself first) *)
+Record cinfo := { c_name : text; c_mod : text; c_mro : list text }.
+
+(* XOpaque: a bare object(), refused by every serializer with that serializer's usual error;
+   XBadObj c: an object whose serialisation raises an error of class c (a __getstate__ that raises, an
+   unassigned slot, nesting beyond the recursion limit, ...) *)
 Inductive xval :=
 | XNone | XBool (b : bool) | XInt (z : Z) | XStr (s : text)
-| XList (l : list xval) | XDict (d : list (text * xval)) | XOpaque.
+| XList (l : list xval) | XDict (d : list (text * xval)) | XOpaque | XBadObj (c : cinfo).
 
 Definition k_class : text := Eval compute in t "__class__".
 Definition k_exception : text := Eval compute in t "__exception__".
@@ -74,7 +80,7 @@ Definition c_SerializeError : text := Eval compute in t "Pyro5.errors.SerializeE
 (* serialisable by every serializer library *)
 Fixpoint plain (v : xval) : bool :=
   match v with
-  | XOpaque => false
+  | XOpaque | XBadObj _ => false
   | XList l => forallb plain l
   | XDict d => forallb (fun kv => match kv with (_, x) => plain x end) d
   | _ => true
@@ -106,8 +112,6 @@ Fixpoint set_attr (k : text) (v : xval) (d : list (text * xval)) : list (text * 
   | (k', v') :: d' => if text_eqb k k' then (k, v) :: d' else (k', v') :: set_attr k v d'
   end.
 
-(* a class: qualified name "module.Name" and the qualified names of its MRO (itself first) *)
-Record cinfo := { c_name : text; c_mod : text; c_mro : list text }.
 Definition qname (c : cinfo) : text := c_mod c ++ [46%N] ++ c_name c.
 Definition isa (c : cinfo) (base : text) : bool := mem base (c_mro c).
 Definition isa_any (c : cinfo) (bases : list text) : bool := existsb (isa c) bases.
@@ -287,6 +291,25 @@ Section Client.
     end.
 End Client.
 
+Definition find_class (T : tables) (qn : text) : cinfo :=
+  match find (fun c => text_eqb (qname c) qn) (t_classes T) with
+  | Some c => c
+  | None => {| c_name := qn; c_mod := []; c_mro := [qn] |}
+  end.
+
+(* the first unserialisable object met in a value: Some None = a bare object, Some (Some c) = an
+   object whose serialisation raises class c *)
+Fixpoint bad_of (v : xval) : option (option cinfo) :=
+  match v with
+  | XOpaque => Some None
+  | XBadObj c => Some (Some c)
+  | XList l => (fix go (l : list xval) : option (option cinfo) :=
+                  match l with [] => None | x :: l' => match bad_of x with Some b => Some b | None => go l' end end) l
+  | XDict d => (fix go (l : list (text * xval)) : option (option cinfo) :=
+                  match l with [] => None | (_, x) :: l' => match bad_of x with Some b => Some b | None => go l' end end) d
+  | _ => None
+  end.
+
 (* ---------------------------------------------------------------- the whole call *)
 Inductive outcome :=
 | ORaised (qn : text) (args : list xval) (attrs : list (text * xval))  (* the decoded remote exception *)
@@ -310,15 +333,11 @@ Section Call.
   Variable T : tables.
   Variable F : facts.
   Variable codec : ser -> xval -> option xval.
+  Variable serr : ser -> xval -> cinfo.     (* class of the error dumps raises when codec gives None *)
   Variable ctor : text -> list xval -> option (list xval).
 
-  Definition find_class (qn : text) : cinfo :=
-    match find (fun c => text_eqb (qname c) qn) (t_classes T) with
-    | Some c => c
-    | None => {| c_name := qn; c_mod := []; c_mro := [qn] |}
-    end.
   (* does the client release its connection when this class is raised inside _pyroInvoke? *)
-  Definition releases (qn : text) : bool := isa_any (find_class qn) (f_client_release F).
+  Definition releases (qn : text) : bool := isa_any (find_class T qn) (f_client_release F).
   Definition mk (n : nat) (o : outcome) (srv cli : bool) : result :=
     (* a client that releases its connection closes it: the server side follows *)
     {| r_before := n; r_out := o; r_conn := {| server_open := srv && cli; client_conn := cli |} |}.
@@ -331,7 +350,9 @@ Section Call.
     let e' := if f_send_sets_tb F then with_tb e tbv else e in
     match codec s (class_to_dict T e') with
     | Some v => PExc v
-    | None => if f_fallback F then PFallback else PNone
+    | None =>
+      (* the fallback runs only for the classes its `except` names; otherwise the error leaves the handler *)
+      if f_fallback F && isa_any (serr s (class_to_dict T e')) (f_fallback_catch F) then PFallback else PNone
     end.
 
   (* plain call, attribute access, stream item: the exception reaches handleRequest's handler *)
@@ -355,13 +376,18 @@ Section Call.
     end.
 
   (* the serializer's own error goes through the same handler *)
-  Definition ser_error (s : ser) : result :=
-    let fc := dumps_fail_class s in
-    match route F (find_class fc) with
+  Definition ser_error (fci : cinfo) : result :=
+    (* the error is itself sent as an exception reply and has to pass the receiver's whitelist *)
+    let arrives (srv : bool) : result :=
+      match decide T (qname fci) true with
+      | DMake q => mk 0 (OSerErr q) srv (negb (releases q))
+      | DFail c => mk 0 (OClientErr c) srv (negb (releases c))
+      end in
+    match route F fci with
     | Escape | NoReplyClose => lost
     | NoReplyKeep => mk 0 OTimeout true (negb (releases c_TimeoutError))
-    | ReplyKeep => mk 0 (OSerErr fc) true (negb (releases fc))
-    | ReplyClose => mk 0 (OSerErr fc) false (negb (releases fc))
+    | ReplyKeep => arrives true
+    | ReplyClose => arrives false
     end.
 
   Definition batch (s : ser) (before : list xval) (e : exc) (tbv : xval) : result :=
@@ -370,7 +396,7 @@ Section Call.
       let e' := if f_batch_tb F then with_tb e tbv else e in
       let data := XList (before ++ [wrap (class_to_dict T e')]) in
       match (if is_marshal s && q_marshal_shallow Q then None else codec s data) with
-      | None => ser_error s
+      | None => ser_error (serr s data)
       | Some (XList items) =>
         let its := map (decode_item T ctor) items in
         match first_bad its with
@@ -379,7 +405,7 @@ Section Call.
           match until_wrap its 0 with
           | (n, Some (qn, a, at_)) =>
             (* raised inside a generator: PEP 479 turns StopIteration into RuntimeError *)
-            if isa (find_class qn) c_StopIteration then mk n (OClientErr c_RuntimeError) true true
+            if isa (find_class T qn) c_StopIteration then mk n (OClientErr c_RuntimeError) true true
             else mk n (ORaised qn a at_) true true
           | (n, None) => mk n OReturned true true
           end
@@ -399,6 +425,11 @@ End Call.
 
 (* the library behaviour used by the correspondence harness, and the constructor oracle *)
 Definition std_codec (_ : ser) (v : xval) : option xval := if plain v then Some v else None.
+Definition std_serr (T : tables) (s : ser) (v : xval) : cinfo :=
+  match bad_of v with
+  | Some (Some c) => c
+  | _ => find_class T (dumps_fail_class s)
+  end.
 Definition std_ctor (_ : text) (a : list xval) : option (list xval) := Some a.
 
 (* computable well-formedness of the generated tables, used as a theorem hypothesis *)
